@@ -213,8 +213,20 @@ def build_config(rng):
                 hr, hc = rng.choice([0, 1, 1, 2]), rng.choice([0, 1, 1, 2])
                 t.num_header_rows = hr
                 t.num_header_cols = hc
+                # header cells left empty (no label at all) or holding the empty string
+                blank = {}
+                if rng.random() < .35:
+                    for _ in range(rng.randint(1, 2)):
+                        if hr and rng.random() < .6:
+                            blank[(hr - 1, rng.randrange(hc, C))] = rng.choice(["empty", "empty", ""])
+                        elif hc:
+                            blank[(rng.randrange(hr, R), hc - 1)] = rng.choice(["empty", "empty", ""])
                 for r in range(R):
                     for c in range(C):
+                        if (r, c) in blank:
+                            if blank[(r, c)] == "":
+                                t.write(r, c, "")
+                            continue
                         t.write(r, c, float(r * 10 + c))
                 mode = rng.choice(["absent", "unique", "dup-table", "dup-sheet", "dup-doc", "cross-axis"])
                 pool = {"unique": rng.sample(WORDS, 10), "dup-table": rng.sample(WORDS, 3), "dup-sheet": pool_sheet, "dup-doc": pool_doc,
@@ -228,11 +240,11 @@ def build_config(rng):
                         names_r, names_c = both[:R], both[R:R + C]
                     if hc:
                         for r in range(hr, R):
-                            if r < len(names_r):
+                            if r < len(names_r) and (r, hc - 1) not in blank:
                                 t.write(r, hc - 1, names_r[r])
                     if hr:
                         for c in range(hc, C):
-                            if c < len(names_c):
+                            if c < len(names_c) and (hr - 1, c) not in blank:
                                 t.write(hr - 1, c, names_c[c])
                 tabs.append((si, ti, t))
     return doc, tabs
@@ -282,12 +294,16 @@ def config_case(case, rec):
                 elif k < .78:
                     r0 = rng.randrange(R)
                     r1 = rng.randint(r0, R - 1)
-                    f2 = (fl[0], fl[1] if r0 != r1 else fl[0], False, False)
+                    f2 = (fl[0], fl[1], False, False)  # also on a one-row span: $3:3 and 3:$3 are not $3:$3
+                    if r0 == r1 and fl[0] != fl[1]:
+                        rec.count("one_index_spans_with_unequal_marks")
                     node = F.tract(T, host, r0, r1, None, None, f2, uuid)
                 elif k < .9:
                     c0 = rng.randrange(C)
                     c1 = rng.randint(c0, C - 1)
-                    f2 = (False, False, fl[2], fl[3] if c0 != c1 else fl[2])
+                    f2 = (False, False, fl[2], fl[3])
+                    if c0 == c1 and fl[2] != fl[3]:
+                        rec.count("one_index_spans_with_unequal_marks")
                     node = F.tract(T, host, None, None, c0, c1, f2, uuid)
                 else:
                     # the other attested range shape: COLON_NODE over two cell references (99 cross-table instances in the fixtures)
